@@ -13,7 +13,7 @@ with tempfile.TemporaryDirectory() as d:
            '--continue-on-collection-errors', '--junitxml=' + xml, '-n', os.environ.get('BASELINE_N', '8')]
     env = dict(os.environ)
     env.pop('PRYSM_VERIF', None)
-    p = subprocess.run(cmd, cwd='/repo', env=env, stdout=subprocess.PIPE, stderr=subprocess.STDOUT, text=True)
+    p = subprocess.run(cmd, cwd=os.environ.get('PRYSM_REPO', '/repo'), env=env, stdout=subprocess.PIPE, stderr=subprocess.STDOUT, text=True)
     tail = p.stdout.strip().splitlines()[-1:] 
     passed = set()
     for tc in ET.parse(xml).getroot().iter('testcase'):
